@@ -228,7 +228,8 @@ pub fn ob_raw_rustc_entry<S: Src, const N: usize>(s: &mut S) -> Chk {
 #[repr(align(64))]
 pub struct Big64(pub u64);
 fn layout_run<T: Copy + PartialEq + core::fmt::Debug, S: Src>(s: &mut S, mk: impl Fn(u64) -> T, hv: impl Fn(&T) -> u64, n_ops: usize) -> Chk {
-    let mut t: HashTable<T> = HashTable::new();
+    alloc_reset();
+    let mut t: HashTable<T, LedgerAlloc> = HashTable::new_in(LedgerAlloc);
     let mut model: Vec<T> = Vec::new();
     for _ in 0..n_ops {
         let x = s.below(48) as u64;
@@ -253,6 +254,8 @@ fn layout_run<T: Copy + PartialEq + core::fmt::Debug, S: Src>(s: &mut S, mk: imp
             _ => t.reserve(s.below(40), |e| hv(e)),
         }
         ensure!(t.len() == model.len() && t.iter().count() == model.len(), "layout run: len() equals the number of elements yielded");
+        ensure!(t.allocation_size() == alloc_live_bytes(), "layout run: allocation_size() equals the bytes currently held from the allocator");
+        ensure!(alloc_error().is_none(), "layout run: blocks are freed with the layout they were allocated with");
         let p = t.raw.table.ctrl.as_ptr() as usize;
         ensure!(p % Group::WIDTH == 0 && (t.raw.buckets() == 1 || p % core::mem::align_of::<T>() == 0), "layout run: control bytes are aligned for group loads and (allocated tables) for the element type");
         for e in t.iter() {
@@ -278,7 +281,10 @@ fn layout_run<T: Copy + PartialEq + core::fmt::Debug, S: Src>(s: &mut S, mk: imp
 }
 pub fn ob_layouts<S: Src, const N: usize>(s: &mut S) -> Chk {
     let n_ops = s.below(3 * N) + 1;
-    match s.below(6) {
+    match s.below(9) {
+        6 => layout_run::<[u8; 3], S>(s, |x| [x as u8, 1, 2], |e| hash_of((e[0] as u64) << 57 | (e[0] as u64 & 7)), n_ops),
+        7 => layout_run::<[u16; 3], S>(s, |x| [x as u16, 1, 2], |e| hash_of((e[0] as u64) << 57 | (e[0] as u64 & 15)), n_ops),
+        8 => layout_run::<(u8, [u8; 4]), S>(s, |x| (x as u8, [0; 4]), |e| hash_of((e.0 as u64) << 57 | (e.0 as u64 & 3)), n_ops),
         0 => layout_run::<(), S>(s, |_| (), |_| 0, n_ops),
         1 => layout_run::<u8, S>(s, |x| x as u8, |e| hash_of((*e as u64) << 57 | (*e as u64 & 7)), n_ops),
         2 => layout_run::<u16, S>(s, |x| x as u16, |e| hash_of((*e as u64) * 0x0101_0000_0000_0101), n_ops),
